@@ -18,6 +18,7 @@ def register(db):
     register_bind_var(db)
     register_bind_attr(db)
     register_bind_object(db)
+    register_bind_any_attr(db)
     P = ["C15"]
     assume_method(db, "NodeParserObj", "start", raises=["ParserError", "ConverterError", "XmlContextError"])
     assume_method(db, "NodeParserObj", "end", returns="bool", raises=["ParserError", "ConverterError", "XmlContextError"])
@@ -336,4 +337,22 @@ def register_bind_object(db):
                           ("any-other-field-is-offered-the-object-once", f"implies(not {OTHER} and not var.is_wildcard, called('{BV}') == 1 and called('{BW}') == 0 and "
                                                                          f"call_arg('{BV}', 2) is var and call_arg('{BV}', 3) is value)")])],
         modifies=["self.wrappers"], properties=["C10", "C15"],
+    ))
+
+
+def register_bind_any_attr(db):
+    """ElementNode.bind_any_attr: an undeclared attribute the wildcard admits is stored under its expanded name with its
+    value expanded (prefix -> Clark notation) in the *element's own* prefix map."""
+    from .c10_strictness import element_node, NODES
+    EL = f"{NODES}.element:ElementNode"
+    PA = "ParserUtils.parse_any_attribute"
+    db.add(Contract(f"xsdata.formats.dataclass.parsers.utils:{PA}", variant="call-view", trusted=True, call_default=True, params={},
+                    returns="str", raises={}, note="call-site view (the function itself is verified under C09: only bound prefixes are expanded)"))
+    db.add(Contract(
+        f"{EL}.bind_any_attr", variant="expanded-in-the-element-scope",
+        params={"self": element_node, "params": "opaque:PyDict", "var": "opaque:XmlVar", "qname": "str", "value": "str"},
+        ensures=[("the-value-is-expanded-once-in-the-element-own-scope",
+                  f"called('{PA}') == 1 and call_arg('{PA}', 1) == value and call_arg('{PA}', 2) is self.ns_map")],
+        raises={"KeyError": True}, modifies=["params"], properties=["C09"],
+        note="KeyError: artefact of the abstract params dictionary (a read after a write is not tracked)",
     ))
